@@ -26,6 +26,9 @@ type PortSpec struct {
 	TCP   bool
 	UDP   bool
 	Extra string // extra TOML lines for the service section
+	// Services: this entry is not a service of its own but a second [[port]] that several
+	// configured services share (the server then picks by the first bytes)
+	Services []string
 }
 
 var Ports = []PortSpec{
@@ -53,6 +56,8 @@ var Ports = []PortSpec{
 	{Key: "elasticsearch", Type: "elasticsearch", Port: 9200, TCP: true},
 	{Key: "memcached", Type: "memcached", Port: 11211, TCP: true, UDP: true},
 	{Key: "counterstrike", Type: "counterstrike", Port: 27015, UDP: true},
+	// a legal, less usual configuration shape: one port, several services choosing by payload
+	{Key: "shared", Port: 8000, TCP: true, Services: []string{"cwmp", "docker", "http"}},
 }
 
 func PortOf(key string) *PortSpec {
@@ -72,6 +77,23 @@ func Body(fsBase string, keys []string) string {
 	}
 	var b strings.Builder
 	for _, p := range Ports {
+		if len(p.Services) > 0 {
+			ok := true
+			for _, k := range p.Services {
+				if keys != nil && !want[k] {
+					ok = false
+				}
+			}
+			if !ok || (keys != nil && !want[p.Key]) {
+				continue
+			}
+			var q []string
+			for _, k := range p.Services {
+				q = append(q, fmt.Sprintf("%q", k))
+			}
+			fmt.Fprintf(&b, "[[port]]\nport=\"tcp/%d\"\nservices=[%s]\n\n", p.Port, strings.Join(q, ", "))
+			continue
+		}
 		if keys != nil && !want[p.Key] {
 			continue
 		}
